@@ -24,7 +24,7 @@ BOUNDS = {
 }
 STUBS = ["ETag obligations: dates are enumerated concrete datetimes (before/equal/after, sub-second, non-UTC offsets)", "conditional_dates: calendar fields of Last-Modified and If-Modified-Since are solver ints; datetime constructors / comparison / astimezone follow harness/dtmodel.py (contract model, validated natively on every path); email.utils._parsedate_tz is interpreted"]
 ASSUMPTIONS = ["body content is the position pattern", "response ETags contain no double quote"]
-OUTSIDE = ["send_file (filesystem)", "numeric zone offsets are enumerated (not solver-quantified)", "If-Range dates", "multi-part/byteranges bodies (werkzeug answers 416)"]
+OUTSIDE = ["send_file (filesystem)", "numeric zone offsets are enumerated (not solver-quantified)", "multi-part/byteranges bodies (werkzeug answers 416)"]
 
 
 def body_parse_range(I, X, n=4):
@@ -314,7 +314,7 @@ def p2(n):
     return pstr(n).zfill(2)
 
 
-def body_conditional_dates(I, X, lm_month=3, ims_month=3, zone="GMT", lm_kind="aware"):
+def body_conditional_dates(I, X, lm_month=3, ims_month=3, zone="GMT", lm_kind="aware", via="ims"):
     """If-Modified-Since against Last-Modified with both instants solver-quantified: the year,
     day, hour, minute and second of each side (and the header's numeric zone offset) are solver
     integers; the verdict must be 'unmodified' exactly when Last-Modified is not later than the
@@ -356,7 +356,17 @@ def body_conditional_dates(I, X, lm_month=3, ims_month=3, zone="GMT", lm_kind="a
         lm = SymDatetime(a, tz)
     else:
         lm = dtm.datetime(*a, tzinfo=tz)
-    modified = I.call(is_resource_modified, (), {"last_modified": lm, "http_if_modified_since": hdr})
+    FAR = "Fri, 31 Dec 9999 23:59:59 GMT"   # a decoy that would make every resource 'unmodified'
+    if via == "ims":
+        kw = {"http_if_modified_since": hdr}
+    elif via == "if_range":
+        # a Range request: the If-Range date decides, If-Modified-Since is not consulted
+        kw = {"http_range": "bytes=0-1", "http_if_range": hdr, "http_if_modified_since": FAR, "ignore_if_range": False}
+    else:
+        # no Range header: If-Range must be ignored, If-Modified-Since decides
+        kw = {"http_range": None, "http_if_range": FAR, "http_if_modified_since": hdr, "ignore_if_range": False}
+    kw["last_modified"] = lm
+    modified = I.call(is_resource_modified, (), kw)
     unmod = utc_seconds(a, lm_off) <= utc_seconds(b, off)
     got_unmod = pnot(modified) if not isinstance(modified, bool) else (not modified)
     return peq(got_unmod, unmod), {"header": hdr, "modified": bool(modified)}
@@ -391,6 +401,11 @@ def obligations(tier, seed):
     for lm_m, ims_m, zone, kind in combos:
         add(f"conditional_dates[lm_month={lm_m},ims_month={ims_m},zone={zone},{kind}]", "body_conditional_dates",
             {"lm_month": lm_m, "ims_month": ims_m, "zone": zone, "lm_kind": kind}, False, 1500)
+    # the same comparison reached through If-Range (a Range request) and with If-Range ignored (no Range)
+    for via in ("if_range", "if_range-without-range"):
+        for lm_m, ims_m, zone, kind in (combos[:3] if quick else combos[:7] + combos[7::6]):
+            add(f"conditional_dates[via={via},lm_month={lm_m},date_month={ims_m},zone={zone},{kind}]", "body_conditional_dates",
+                {"lm_month": lm_m, "ims_month": ims_m, "zone": zone, "lm_kind": kind, "via": via}, False, 1500)
     for header in ("if-none-match", "if-match"):
         for shape in ("one", "two", "two-spaced", "star", "absent"):
             for lm, ims in [("none", "none"), ("equal", "equal"), ("equal-subsec", "equal"), ("after", "equal"), ("before", "equal"),
